@@ -142,13 +142,14 @@ class _Chunks:
 
 
 def chunked(body, size=None, last_ext=b""):
-    out = b""
     if size is None or size <= 0:
         size = len(body) or 1
+    parts = []
     for i in range(0, len(body), size):
         part = body[i:i + size]
-        out += b"%x\r\n" % len(part) + part + b"\r\n"
-    return out + b"0" + last_ext + b"\r\n\r\n"
+        parts.append(b"%x\r\n" % len(part) + part + b"\r\n")
+    parts.append(b"0" + last_ext + b"\r\n\r\n")
+    return b"".join(parts)
 
 
 def reply_parts(method, beh, istag=b'"vf-c60-1"'):
